@@ -15,6 +15,8 @@ static mut TAN_LAST_ARG: f32 = 0.0;
 static mut TAN_ND3: [f32; 3] = [0.0; 3];
 static mut TAN_CALLS3: usize = 0;
 static mut USE_POOL3: bool = false;
+/// true: tan_model returns ONE representative of its contract (the lower envelope; 1+2d at pi/4) without nondeterminism
+static mut TAN_REPRESENTATIVE: bool = false;
 
 fn tan_contract(x: f32, y: f32) -> bool {
     if !(x >= 0.0 && x < TAN_XMAX) {
@@ -39,8 +41,27 @@ fn tan_contract(x: f32, y: f32) -> bool {
     true
 }
 
+fn tan_representative(x: f32) -> f32 {
+    if !(x >= 0.0 && x < TAN_XMAX) {
+        return x; // outside the contract's domain (never reached with the cutoff clamp in place)
+    }
+    let d = x as f64 - core::f64::consts::FRAC_PI_4;
+    if d > -1.0e-5 && d < 1.0e-5 {
+        return (1.0 + 2.0 * d) as f32;
+    }
+    let mut i = (x * TAN_INV_H) as usize;
+    if i >= TAN_N {
+        i = TAN_N - 1;
+    }
+    TAN_T0[i] + TAN_SLO[i] * (x - TAN_X0[i])
+}
+
 fn tan_model(x: f32) -> f32 {
     unsafe {
+        if TAN_REPRESENTATIVE {
+            TAN_LAST_ARG = x;
+            return tan_representative(x);
+        }
         if USE_POOL3 {
             let k = if TAN_CALLS3 < 3 { TAN_CALLS3 } else { 2 };
             let y = TAN_ND3[k];
@@ -75,10 +96,18 @@ fn coeffs_of(gp: &mut GlideProcessor) -> Coefficients<f32> {
 /// "legal one-pole low-pass": a convex combination of the new input, the previous input and the
 /// previous output (weights >= 0 summing to 1 within 4 half-ulps of 1.0), nothing else.
 fn legal(c: &Coefficients<f32>) -> bool {
+    legal_range(c) && weights_sum_to_one(c)
+}
+
+/// range part of legality: one pole, no second-order terms, weights non-negative, pole in [-3e-7, 1)
+fn legal_range(c: &Coefficients<f32>) -> bool {
     let p = -c.a1;
-    let sum = c.b0 as f64 + c.b1 as f64 + p as f64;
-    c.b2 == 0.0 && c.a2 == 0.0 && c.b0 == c.b1 && c.b0 >= 0.0 && c.b0 <= 0.5000001
-        && p >= -3.0e-7 && p < 1.0 && sum >= 1.0 - 2.4e-7 && sum <= 1.0 + 2.4e-7
+    c.b2 == 0.0 && c.a2 == 0.0 && c.b0 == c.b1 && c.b0 >= 0.0 && c.b0 <= 0.5000001 && p >= -3.0e-7 && p < 1.0
+}
+
+fn weights_sum_to_one(c: &Coefficients<f32>) -> bool {
+    let sum = c.b0 as f64 + c.b1 as f64 + (-c.a1) as f64;
+    sum >= 1.0 - 2.4e-7 && sum <= 1.0 + 2.4e-7
 }
 
 const RATES: [f32; 6] = [100.0, 1_000.0, 48_000.0, 8_000.0, 44_100.0, 22_050.0];
@@ -87,8 +116,8 @@ const RATES: [f32; 6] = [100.0, 1_000.0, 48_000.0, 8_000.0, 44_100.0, 22_050.0];
 // C13  coefficient legality for every time setting
 // =====================================================================
 
-// @family prop=C13,C17 name=c13_coeffs_legal macro=c13_coeffs_legal n=6 quick=0,1,2 thorough=all timeout=1800 stub=1
-// @about slice = sample rate {100, 1000, 48000, 8000, 44100, 22050 Hz}: fresh GlideProcessor::new(fs) and then set_time(t) for ANY f32 t in [0, 10] (incl. 0, subnormals, values below 2/fs): the coefficients installed by new() and by set_time() are those of a legal one-pole low-pass: b2 = a2 = 0, b0 == b1 in [0, 0.5], pole -a1 in [-3e-7, 1) -- never negative beyond rounding, never on the unit circle -- and b0+b1+pole = 1 within 2.4e-7, so every output sample is a convex combination of the new input, the previous input and the previous output; no panic (unwrap of from_params) . tan replaced by its contract
+// @family prop=C13,C17 name=c13_coeffs_legal macro=c13_coeffs_legal n=6 quick=0,1,2 thorough=all timeout=1200 stub=1
+// @about slice = sample rate {100, 1000, 48000, 8000, 44100, 22050 Hz}: fresh GlideProcessor::new(fs) and then set_time(t) for ANY f32 t in [0, 10] (incl. 0, subnormals, values below 2/fs): the coefficients installed by new() and by set_time() are those of a one-pole low-pass with non-negative weights: b2 = a2 = 0, b0 == b1 in [0, 0.5], pole -a1 in [-3e-7, 1) -- never negative beyond rounding, never on the unit circle; no panic (unwrap of from_params). tan replaced by its contract. (That the three weights sum to 1 is c13_weights_sum_to_one.)
 macro_rules! c13_coeffs_legal {
     ($name:ident, $k:expr) => {
         #[kani::proof]
@@ -98,12 +127,12 @@ macro_rules! c13_coeffs_legal {
             let fs: f32 = RATES[$k];
             let mut gp = GlideProcessor::new(fs);
             let c0 = coeffs_of(&mut gp);
-            vassert!(legal(&c0), "C13/new/coefficients-are-a-legal-one-pole-lowpass");
+            vassert!(legal_range(&c0), "C13/new/coefficients-are-a-one-pole-lowpass-with-pole-in-[0,1)");
             let t: f32 = kani::any();
             kani::assume(t >= 0.0 && t <= 10.0);
             gp.set_time(t);
             let c = coeffs_of(&mut gp);
-            vassert!(legal(&c), "C13/set_time/coefficients-are-a-legal-one-pole-lowpass");
+            vassert!(legal_range(&c), "C13/set_time/coefficients-are-a-one-pole-lowpass-with-pole-in-[0,1)");
             vassert!(gp.cached_t == t, "C14/set_time/first-call-is-honoured");
             vcover!(t == 0.0, "witness: glide off");
             vcover!(t > 0.0 && t * fs < 2.0, "witness: shorter than two samples");
@@ -113,60 +142,9 @@ macro_rules! c13_coeffs_legal {
     };
 }
 
-// =====================================================================
-// C13  one step of a legal filter is a convex combination; no ringing
-// =====================================================================
-
-// @harness prop=C13,C17 tier=quick timeout=3000
-// @about one process() call of the real biquad with ARBITRARY legal coefficients (b0 = b1 and pole symbolic f32 subject to the legality predicate) and arbitrary filter state (previous input x1, previous output y1) forced through the public biquad API, signals x, x1, y1 on a 2^-8 grid in [-1, 1]: the output lies within [min(x,x1,y1), max(x,x1,y1)] +- 8 ulp(1.0); with a held input (x1 == x) the error x - y keeps the sign of x - y1 and does not grow (monotone approach, no ringing). By induction over samples (hull only grows with inputs) and over set_time calls (each installs legal coefficients, c13_coeffs_legal, and leaves x1/y1 untouched) the range claim holds for every input sequence and every set_time schedule
-#[kani::proof]
-fn c13_step_is_convex_combination() {
-    let b0: f32 = kani::any();
-    let a1: f32 = kani::any();
-    let c = Coefficients { a1, a2: 0.0, b0, b1: b0, b2: 0.0 };
-    kani::assume(legal(&c));
-    let gx: i16 = kani::any();
-    let gx1: i16 = kani::any();
-    let gy1: i16 = kani::any();
-    kani::assume(gx >= -256 && gx <= 256 && gx1 >= -256 && gx1 <= 256 && gy1 >= -256 && gy1 <= 256);
-    let held: bool = kani::any();
-    let x = gx as f32 / 256.0;
-    let x1 = if held { x } else { gx1 as f32 / 256.0 };
-    let y1 = gy1 as f32 / 256.0;
-    // force the state (x1, y1) through the public API: out = b0*in + b1*x1 - a1*y1 (exact with these coefficients)
-    let mut f = DirectForm1::<f32>::new(Coefficients { a1: 0.0, a2: 0.0, b0: 1.0, b1: 0.0, b2: 0.0 });
-    let _ = f.run(y1); // x1 = y1, y1 = y1
-    f.update_coefficients(Coefficients { a1: -1.0, a2: 0.0, b0: 0.0, b1: 0.0, b2: 0.0 });
-    let o = f.run(x1); // out = y1, x1 = x1
-    vassert!(o == y1, "C13/step/state-forcing-is-exact");
-    f.update_coefficients(c);
-    let mut gp = GlideProcessor { min_fc: 0.1, max_fc: 250.0, fs: 1000.0.hz(), lpf: f, cached_t: 0.0 };
-    let y = gp.process(x);
-    let lo = if x < x1 { if x < y1 { x } else { y1 } } else if x1 < y1 { x1 } else { y1 };
-    let hi = if x > x1 { if x > y1 { x } else { y1 } } else if x1 > y1 { x1 } else { y1 };
-    let tol = 8.0 * 1.1920929e-7; // pole down to -3e-7 (rounding of tan at pi/4) plus 4 ulp of arithmetic
-    vassert!(y >= lo - tol && y <= hi + tol, "C13/step/output-within-hull-of-input-prev-input-prev-output");
-    if held {
-        let e1 = x - y1;
-        let e = x - y;
-        if e1 >= 0.0 {
-            vassert!(e >= -tol && e <= e1 + tol, "C13/step/held-input:error-keeps-sign-and-does-not-grow");
-        } else {
-            vassert!(e <= tol && e >= e1 - tol, "C13/step/held-input:error-keeps-sign-and-does-not-grow");
-        }
-    }
-    vcover!(held && y1 < x && y > y1, "witness: moving toward a held input");
-    vcover!(!held && x1 < y1 && y1 < x, "witness: three distinct values");
-    vcover!(a1 == 0.0, "witness: fastest setting (pole 0)");
-}
-
-// =====================================================================
-// C14  dead band, clamps, pole placement
-// =====================================================================
-
-// @family prop=C14,C17 name=c14_dead_band macro=c14_dead_band n=6 quick=1,2 thorough=all timeout=1800 stub=1
-// @about slice = sample rate as above: processor with arbitrary legal coefficients in effect for an arbitrary cached time c in [0,10] (or the power-on marker -1), one set_time(t) for any f32 t in [0, 12]: if |t - c| <= 0.05 the call is ignored and nothing changes; otherwise cached_t = t and the new coefficients are legal; t < 2/fs installs exactly the coefficients of t = 0 (the fastest response, pole <= 0.25 so an error shrinks below 2^-16 within 8 samples) and t > 10 exactly those of t = 10
-macro_rules! c14_dead_band {
+// @family prop=C13 name=c13_weights_sum_to_one macro=c13_weights_sum_to_one n=6 quick=1,2 thorough=all timeout=2400 stub=1
+// @about slice = sample rate as above; t on the grid k/16 s, k = 0..=160 (0 .. 10 s): the three weights b0 + b1 + pole installed by set_time(t) sum to 1 within 2.4e-7 (two f32 divisions by the same denominator), so every output sample is a convex combination of the new input, the previous input and the previous output up to that residue -- the 'f32 resolution of the filter'. Off-grid times: outside the claim (two dividers with a 14-bit symbolic argument did not finish in 20 min); the general statement is the three-rounding argument |fl(ot/a0)*2 + fl((1-ot)/a0) - 1| <= 2^-24 + 2^-25 + 2*2^-26 with a0 = fl(1+ot)
+macro_rules! c13_weights_sum_to_one {
     ($name:ident, $k:expr) => {
         #[kani::proof]
         #[kani::stub(f32::tan, tan_model)]
@@ -174,17 +152,101 @@ macro_rules! c14_dead_band {
             draw_tan();
             let fs: f32 = RATES[$k];
             let mut gp = GlideProcessor::new(fs);
+            let c0 = coeffs_of(&mut gp);
+            vassert!(weights_sum_to_one(&c0), "C13/new/weights-sum-to-one");
+            let k: u16 = kani::any();
+            kani::assume(k <= 160);
+            gp.set_time(k as f32 / 16.0);
+            let c = coeffs_of(&mut gp);
+            vassert!(weights_sum_to_one(&c), "C13/set_time/weights-sum-to-one");
+            vcover!(k == 0, "witness: glide off");
+            vcover!(k == 160, "witness: 10 s");
+        }
+    };
+}
+
+// =====================================================================
+// C13  one step of a legal filter is a convex combination; no ringing
+// =====================================================================
+
+// @family prop=C13 name=c13_step macro=c13_step n=9 tier=thorough thorough=3 tseeded=0 timeout=3000 optional=1
+// @about (thorough tier, reported only if it finishes: three symbolic float products against a tolerance did not finish in 40 min at G=5) slice G = signal grid 2^-G: one process() call of the real biquad with ARBITRARY legal coefficients (b0 = b1 and pole symbolic f32 subject to the legality predicate) and arbitrary filter state (previous input x1, previous output y1) forced through the public biquad API, signals x, x1, y1 on the grid in [-1, 1]: the output lies within [min(x,x1,y1), max(x,x1,y1)] +- 8 ulp(1.0); with a held input (x1 == x) the error x - y keeps the sign of x - y1 and does not grow (monotone approach, no ringing). By induction over samples (hull only grows with inputs) and over set_time calls (each installs legal coefficients, c13_coeffs_legal, and leaves x1/y1 untouched) the range claim holds for every input sequence and every set_time schedule
+macro_rules! c13_step {
+    ($name:ident, $g:expr) => {
+        #[kani::proof]
+        fn $name() {
+            let b0: f32 = kani::any();
+            let a1: f32 = kani::any();
+            let c = Coefficients { a1, a2: 0.0, b0, b1: b0, b2: 0.0 };
+            kani::assume(legal(&c));
+            const ONE: i16 = 1 << $g;
+            let gx: i16 = kani::any();
+            let gx1: i16 = kani::any();
+            let gy1: i16 = kani::any();
+            kani::assume(gx >= -ONE && gx <= ONE && gx1 >= -ONE && gx1 <= ONE && gy1 >= -ONE && gy1 <= ONE);
+            let held: bool = kani::any();
+            let x = gx as f32 / ONE as f32;
+            let x1 = if held { x } else { gx1 as f32 / ONE as f32 };
+            let y1 = gy1 as f32 / ONE as f32;
+            // force the state (x1, y1) through the public API with coefficients whose arithmetic is exact
+            let mut f = DirectForm1::<f32>::new(Coefficients { a1: 0.0, a2: 0.0, b0: 1.0, b1: 0.0, b2: 0.0 });
+            let _ = f.run(y1); // x1 = y1, y1 = y1
+            f.update_coefficients(Coefficients { a1: -1.0, a2: 0.0, b0: 0.0, b1: 0.0, b2: 0.0 });
+            let o = f.run(x1); // out = y1, x1 = x1
+            vassert!(o == y1, "C13/step/state-forcing-is-exact");
+            f.update_coefficients(c);
+            let mut gp = GlideProcessor { min_fc: 0.1, max_fc: 250.0, fs: 1000.0.hz(), lpf: f, cached_t: 1.0 };
+            let y = gp.process(x);
+            let lo = if x < x1 { if x < y1 { x } else { y1 } } else if x1 < y1 { x1 } else { y1 };
+            let hi = if x > x1 { if x > y1 { x } else { y1 } } else if x1 > y1 { x1 } else { y1 };
+            let tol = 8.0 * 1.1920929e-7; // pole down to -3e-7 (rounding of tan at pi/4) plus 4 ulp of arithmetic
+            vassert!(y >= lo - tol && y <= hi + tol, "C13/step/output-within-hull-of-input-prev-input-prev-output");
+            if held {
+                let e1 = x - y1;
+                let e = x - y;
+                if e1 >= 0.0 {
+                    vassert!(e >= -tol && e <= e1 + tol, "C13/step/held-input:error-keeps-sign-and-does-not-grow");
+                } else {
+                    vassert!(e <= tol && e >= e1 - tol, "C13/step/held-input:error-keeps-sign-and-does-not-grow");
+                }
+            }
+            vcover!(held && y1 < x && y > y1, "witness: moving toward a held input");
+            vcover!(!held && x1 < y1 && y1 < x, "witness: three distinct values");
+            vcover!(a1 == 0.0, "witness: fastest setting (pole 0)");
+        }
+    };
+}
+
+// =====================================================================
+// C14  dead band, clamps, pole placement
+// =====================================================================
+
+// @family prop=C14,C17 name=c14_dead_band macro=c14_dead_band n=6 quick=1,2 thorough=all timeout=1500 stub=1
+// @about slice = sample rate as above: processor with arbitrary one-pole coefficients in effect for an arbitrary cached time c in [0,10] (or the power-on marker -1), one set_time(t) for any f32 t in [0, 12]: if |t - c| <= 0.05 the call is ignored and nothing changes (coefficients bit-identical, time in effect unchanged); otherwise cached_t = t and the new coefficients are a one-pole low-pass with pole in [0,1); t < 2/fs asks tan for exactly the argument new() uses for the fastest response (and that response has pole <= 0.25: an error shrinks below 2^-16 within 8 samples); t > 10 asks for exactly the argument of t = 10
+macro_rules! c14_dead_band {
+    ($name:ident, $k:expr) => {
+        #[kani::proof]
+        #[kani::stub(f32::tan, tan_model)]
+        fn $name() {
+            draw_tan();
+            let fs: f32 = RATES[$k];
+            // reference requests: the fastest response (new) and t = 10 s, both with concrete arguments
+            let mut g10 = GlideProcessor::new(fs);
+            let arg_fastest = unsafe { TAN_LAST_ARG };
+            g10.set_time(10.0);
+            let arg_10s = unsafe { TAN_LAST_ARG };
+            draw_tan();
+            let mut gp = GlideProcessor::new(fs);
             let b0: f32 = kani::any();
             let a1: f32 = kani::any();
             let old = Coefficients { a1, a2: 0.0, b0, b1: b0, b2: 0.0 };
-            kani::assume(legal(&old));
+            kani::assume(legal_range(&old));
             gp.lpf.update_coefficients(old);
             let c: f32 = kani::any();
             kani::assume((c >= 0.0 && c <= 10.0) || c == -1.0);
             gp.cached_t = c;
             let t: f32 = kani::any();
             kani::assume(t >= 0.0 && t <= 12.0);
-            unsafe { TAN_CALLS = 1; }
             gp.set_time(t);
             let new = coeffs_of(&mut gp);
             let d = (t as f64 - c as f64).abs();
@@ -194,16 +256,14 @@ macro_rules! c14_dead_band {
             }
             if d > 0.05 + 1.0e-7 {
                 vassert!(gp.cached_t == t, "C14/set_time/honoured-beyond-0.05s");
-                vassert!(legal(&new), "C13/set_time/coefficients-are-a-legal-one-pole-lowpass");
-                // what was asked of tan: pi * f0 / fs with f0 = clamp(1/t)
-                let arg = unsafe { TAN_LAST_ARG } as f64;
+                vassert!(legal_range(&new), "C13/set_time/coefficients-are-a-one-pole-lowpass-with-pole-in-[0,1)");
+                let arg = unsafe { TAN_LAST_ARG };
                 if (t as f64) * (fs as f64) < 2.0 {
-                    // faster than two samples: same request as t = 0 (fastest response)
-                    vassert!(arg * (fs as f64) == arg_for_zero(fs) * (fs as f64), "C14/set_time/below-two-samples-selects-fastest");
+                    vassert!(arg.to_bits() == arg_fastest.to_bits(), "C14/set_time/below-two-samples-selects-fastest");
                     vassert!(-new.a1 <= 0.25, "C14/fastest/pole<=0.25-settles-within-8-samples");
                 }
                 if t > 10.0 {
-                    vassert!(arg == arg_for(10.0, fs), "C14/set_time/above-10s-acts-as-10s");
+                    vassert!(arg.to_bits() == arg_10s.to_bits(), "C14/set_time/above-10s-acts-as-10s");
                 }
             }
             vcover!(d <= 0.04 && c >= 0.0, "witness: inside the dead band");
@@ -213,19 +273,8 @@ macro_rules! c14_dead_band {
     };
 }
 
-/// the tan argument the real code computes for time t (re-derived from the stubbed call of a
-/// second, fresh processor so that no formula of the implementation is repeated here)
-fn arg_for(t: f32, fs: f32) -> f64 {
-    let mut g = GlideProcessor::new(fs);
-    g.set_time(t);
-    unsafe { TAN_LAST_ARG as f64 }
-}
-fn arg_for_zero(fs: f32) -> f64 {
-    arg_for(0.0, fs)
-}
-
 // @family prop=C14 name=c14_pole_placement macro=c14_pole_placement n=6 quick=1,2 thorough=all timeout=3000 stub=1
-// @about slice = sample rate as above: t on the grid k/1024 s, k = 1..=10240, with at least 100 samples per t (N = t*fs >= 100): after set_time(t) on a fresh processor the pole p = -a1 satisfies 5.298/N <= 1-p and (1-p)/p <= 7.666/N. With the one-pole step response error (1-b0)*p^n (closed form; its single step is c13_step_is_convex_combination) and -ln p in [1-p, (1-p)/p] this gives: covered >= 1 - p^N >= 99.5% after t seconds, and between 1 - p^(N/10) >= 40% and 1 - 0.9686*p^(N/10) <= 55% after t/10 seconds (5.298 = -ln 0.005, 7.666 = -10 ln(0.45/0.9686), 1-b0 >= 0.9686 for N >= 100). tan replaced by its contract (relative width 3e-6)
+// @about slice = sample rate as above: t on the grid k/16 s, k = 1..=160, with at least 100 samples per t (N = t*fs >= 100): after set_time(t) on a fresh processor the pole p = -a1 satisfies 5.298/N <= 1-p and (1-p)/p <= 7.666/N. With the one-pole step response error (1-b0)*p^n (closed form; its single step is c13_step_is_convex_combination) and -ln p in [1-p, (1-p)/p] this gives: covered >= 1 - p^N >= 99.5% after t seconds, and between 1 - p^(N/10) >= 40% and 1 - 0.9686*p^(N/10) <= 55% after t/10 seconds (5.298 = -ln 0.005, 7.666 = -10 ln(0.45/0.9686), 1-b0 >= 0.9686 for N >= 100). tan replaced by its contract (relative width 3e-6)
 macro_rules! c14_pole_placement {
     ($name:ident, $k:expr) => {
         #[kani::proof]
@@ -235,9 +284,9 @@ macro_rules! c14_pole_placement {
             let fs: f32 = RATES[$k];
             let mut gp = GlideProcessor::new(fs);
             let k: u16 = kani::any();
-            kani::assume(k >= 1 && k <= 10240);
-            let t = k as f32 / 1024.0;
-            let n = (k as f64 / 1024.0) * fs as f64; // samples per t, exact
+            kani::assume(k >= 1 && k <= 160);
+            let t = k as f32 / 16.0;
+            let n = (k as f64 / 16.0) * fs as f64; // samples per t, exact
             kani::assume(n >= 100.0);
             gp.set_time(t);
             let c = coeffs_of(&mut gp);
@@ -246,8 +295,8 @@ macro_rules! c14_pole_placement {
             vassert!(q * n >= 5.298, "C14/pole/>=99.5%-after-t-and->=...:1-p>=5.298/N");
             vassert!(q * n <= 7.666 * p, "C14/pole/<=55%-after-t/10:(1-p)/p<=7.666/N");
             vassert!(c.b0 <= 0.0314, "C14/pole/first-sample-factor:1-b0>=0.9686");
-            vcover!(k == 10240, "witness: 10 s");
-            vcover!(n < 101.0, "witness: about 100 samples per t");
+            vcover!(k == 160, "witness: 10 s");
+            vcover!(k == 2, "witness: 1/8 s");
         }
     };
 }
@@ -266,7 +315,7 @@ macro_rules! c17_glide_any_time {
             kani::assume(t >= 0.0 && t.is_finite());
             gp.set_time(t);
             let c = coeffs_of(&mut gp);
-            vassert!(legal(&c), "C13/set_time/coefficients-are-a-legal-one-pole-lowpass");
+            vassert!(legal_range(&c), "C13/set_time/coefficients-are-a-one-pole-lowpass-with-pole-in-[0,1)");
             let x: f32 = kani::any();
             kani::assume(x >= -1.0e6 && x <= 1.0e6);
             let y0 = gp.process(x);
@@ -278,51 +327,59 @@ macro_rules! c17_glide_any_time {
     };
 }
 
-// @family prop=C13 name=c13_history macro=c13_history n=6 quick=1 thorough=1,2 tseeded=0 timeout=3000 stub=1
-// @about public API only, slice = sample rate: new(fs); set_time(t0) with t0 in {0, 0.001, 0.01, 0.1, 1, 10} (symbolic choice; 0 = glide off); process(x0); process(x1); set_time(t1) (same choices, may be ignored by the dead band); process(x2) -- inputs on a 2^-6 grid in [-1,1]: every returned output lies within the hull of the inputs seen so far and the previous RETURNED output (+- 8 ulp), in particular after the glide was switched off and on again; with x2 == x1 the last output does not move away from the held input. tan replaced by its contract
+// @family prop=C13 name=c13_history macro=c13_history n=6 quick=1 thorough=1,2 tseeded=0 timeout=1800 stub=1
+// @about state handling through the public API only, slice = sample rate: new(fs); set_time(t0) with t0 in {0, 0.001, 0.01, 0.1, 1, 10} (symbolic choice; 0 = glide off); process(x0); process(x1); set_time(t1) (same choices, may be ignored by the dead band); process(x2); process(x3) -- inputs in {-1, -0.5, 0, 0.5, 1}: every returned output lies within the hull of the inputs seen so far and the previous RETURNED output (+- 8 ulp), in particular after the glide was switched off and on again; with a held input the output does not move away from it. tan is replaced here by ONE representative of its contract (the lower envelope), so that the coefficients are concrete per time choice: this harness decides the state handling of process()/set_time() (what is carried over, what a switched-off glide leaves behind), the numeric design is decided for the whole contract by c13_coeffs_legal / c13_weights_sum_to_one / c14_pole_placement
 macro_rules! c13_history {
     ($name:ident, $k:expr) => {
         #[kani::proof]
         #[kani::stub(f32::tan, tan_model)]
         fn $name() {
-            unsafe { TAN_ND3 = [kani::any(), kani::any(), kani::any()]; TAN_CALLS3 = 0; USE_POOL3 = true; }
+            unsafe { TAN_REPRESENTATIVE = true; }
             let fs: f32 = RATES[$k];
             let times: [f32; 6] = [0.0, 0.001, 0.01, 0.1, 1.0, 10.0];
             let i0: usize = kani::any();
             let i1: usize = kani::any();
             kani::assume(i0 < 6 && i1 < 6);
-            let g: [i8; 3] = kani::any();
-            kani::assume(g[0] >= -64 && g[0] <= 64 && g[1] >= -64 && g[1] <= 64 && g[2] >= -64 && g[2] <= 64);
-            let (x0, x1, x2) = (g[0] as f32 / 64.0, g[1] as f32 / 64.0, g[2] as f32 / 64.0);
+            let g: [i8; 4] = kani::any();
+            kani::assume(g[0] >= -2 && g[0] <= 2 && g[1] >= -2 && g[1] <= 2 && g[2] >= -2 && g[2] <= 2 && g[3] >= -2 && g[3] <= 2);
+            let x = [g[0] as f32 / 2.0, g[1] as f32 / 2.0, g[2] as f32 / 2.0, g[3] as f32 / 2.0];
             let tol = 8.0 * 1.1920929e-7;
             let mut gp = GlideProcessor::new(fs);
             gp.set_time(times[i0]);
-            let y0 = gp.process(x0);
-            let lo0 = if x0 < 0.0 { x0 } else { 0.0 };
-            let hi0 = if x0 > 0.0 { x0 } else { 0.0 };
-            vassert!(y0 >= lo0 - tol && y0 <= hi0 + tol, "C13/history/first-output-between-0-and-first-input");
-            let y1 = gp.process(x1);
-            let lo1 = if x1 < lo0 { x1 } else { lo0 };
-            let hi1 = if x1 > hi0 { x1 } else { hi0 };
-            vassert!(y1 >= lo1 - tol && y1 <= hi1 + tol, "C13/history/output-within-range-of-inputs-seen-so-far");
-            gp.set_time(times[i1]);
-            let y2 = gp.process(x2);
-            // hull of the new input, the previous input and the previous RETURNED output
-            let mut lo = if x2 < x1 { x2 } else { x1 };
-            if y1 < lo { lo = y1; }
-            let mut hi = if x2 > x1 { x2 } else { x1 };
-            if y1 > hi { hi = y1; }
-            vassert!(y2 >= lo - tol && y2 <= hi + tol, "C13/history/output-continues-from-previous-output-after-set_time");
-            if x2 == x1 {
-                let e1 = x2 - y1;
-                let e2 = x2 - y2;
-                if e1 >= 0.0 {
-                    vassert!(e2 >= -tol && e2 <= e1 + tol, "C13/history/held-input:monotone-approach-across-set_time");
-                } else {
-                    vassert!(e2 <= tol && e2 >= e1 - tol, "C13/history/held-input:monotone-approach-across-set_time");
+            let mut lo = 0.0_f32; // range spanned by the initial value 0 and the inputs seen so far
+            let mut hi = 0.0_f32;
+            let mut prev_out = 0.0_f32;
+            let mut prev_in = 0.0_f32;
+            let mut n = 0;
+            while n < 4 {
+                if n == 2 {
+                    gp.set_time(times[i1]);
                 }
+                let xi = x[n];
+                let y = gp.process(xi);
+                if xi < lo { lo = xi; }
+                if xi > hi { hi = xi; }
+                vassert!(y >= lo - tol && y <= hi + tol, "C13/history/output-within-range-of-inputs-seen-so-far");
+                // one step: within the hull of the new input, the previous input and the previous RETURNED output
+                let mut l = if xi < prev_in { xi } else { prev_in };
+                if prev_out < l { l = prev_out; }
+                let mut h = if xi > prev_in { xi } else { prev_in };
+                if prev_out > h { h = prev_out; }
+                vassert!(y >= l - tol && y <= h + tol, "C13/history/output-continues-from-previous-returned-output");
+                if n > 0 && xi == prev_in {
+                    let e1 = xi - prev_out;
+                    let e2 = xi - y;
+                    if e1 >= 0.0 {
+                        vassert!(e2 >= -tol && e2 <= e1 + tol, "C13/history/held-input:monotone-approach-also-across-set_time");
+                    } else {
+                        vassert!(e2 <= tol && e2 >= e1 - tol, "C13/history/held-input:monotone-approach-also-across-set_time");
+                    }
+                }
+                prev_out = y;
+                prev_in = xi;
+                n += 1;
             }
-            vcover!(i0 == 0 && i1 == 3 && x1 != 0.0, "witness: glide switched off, then on again");
+            vcover!(i0 == 0 && i1 == 3 && x[1] != 0.0, "witness: glide switched off, then on again");
             vcover!(i0 == 4 && i1 == 0, "witness: glide off in mid-glide");
             vcover!(i0 == i1, "witness: second set_time ignored");
         }
